@@ -1030,7 +1030,7 @@ class Tr:
             if not idx:
                 raise Unsupported("no loop")
             body = body[:idx[0] + 1]
-        has_while = any(isinstance(x, ast.While) for s in body for x in ast.walk(s))
+        has_while = self.has_while(body)
         if has_while:
             if not self.res:
                 raise Unsupported("while loop in a function without a res result")
@@ -1125,6 +1125,21 @@ class Tr:
         has_loop = any(isinstance(s, (ast.For, ast.While)) for s in body)
         head = "" if (has_loop and not self.uses_out_before_loop(body)) else f"  let out := @nil {self.out_type} in\n"
         return f"Definition {name} {' '.join(params)} : {full} :=\n{head}{text}.\n"
+
+    def has_while(self, stmts):
+        """is there a `while` outside the branches the spec declares untranslated?"""
+        for s in stmts:
+            if isinstance(s, ast.While):
+                return True
+            if isinstance(s, ast.If):
+                if ast.unparse(s.test) not in self.skip_tests and self.has_while(s.body):
+                    return True
+                if self.has_while(s.orelse):
+                    return True
+            elif isinstance(s, (ast.For, ast.Try)):
+                if any(isinstance(x, ast.While) for x in ast.walk(s)):
+                    return True
+        return False
 
     @staticmethod
     def uses_out_before_loop(body):
